@@ -74,6 +74,47 @@ func (e *Exec) fillCell(c *Cell, name string) {
 	}
 }
 
+// walkLeaves visits the leaf cells reachable from a pointer / slice / interface value (following
+// one level of pointers and slices inside, like fillCell)
+func (e *Exec) walkLeaves(v Value, f func(*Cell)) {
+	var cell func(c *Cell)
+	cell = func(c *Cell) {
+		if c.elems != nil {
+			for _, ec := range c.elems {
+				cell(ec)
+			}
+			return
+		}
+		switch x := c.v.(type) {
+		case *SliceV:
+			if x.arr != nil {
+				for i := 0; i < x.len; i++ {
+					cell(x.arr.elems[x.off+i])
+				}
+			}
+			return
+		case *Ptr:
+			if len(x.alts) == 1 {
+				cell(x.alts[0].cell)
+			}
+			return
+		}
+		f(c)
+	}
+	switch x := v.(type) {
+	case *Ptr:
+		cell(e.nonNil(x).alts[0].cell)
+	case *SliceV:
+		for i := 0; i < x.len; i++ {
+			cell(x.arr.elems[x.off+i])
+		}
+	case *IfaceV:
+		e.walkLeaves(x.v, f)
+	default:
+		e.internal("walkLeaves on %T", v)
+	}
+}
+
 func (e *Exec) fillValue(v Value, name string) {
 	switch x := v.(type) {
 	case *Ptr:
@@ -448,6 +489,29 @@ func (e *Exec) zzIntrinsic(name string, args []Value) (Value, bool) {
 			arr.elems[i].v = b.Extract(res, 64*i+63, 64*i)
 		}
 		return &SliceV{arr: arr, off: 0, len: n, cap: n}, true
+	case "zzInterleave":
+		return e.b.Bool(e.interleave(args[0], args[1], e.argInt(args[2]))), true
+	case "zzUFObj":
+		// zzUFObj(name, out, ins...): every integer leaf of *out becomes an uninterpreted function
+		// (one per leaf position) of all integer leaves of the inputs
+		nm := e.argStr(args[0])
+		var parts []*Term
+		for _, a := range e.variadic(args[2]) {
+			e.walkLeaves(a, func(c *Cell) {
+				if _, _, ok := intWidth(c.typ); ok {
+					parts = append(parts, e.termOf(c.v))
+				}
+			})
+		}
+		idx := 0
+		e.walkLeaves(args[1], func(c *Cell) {
+			if w, _, ok := intWidth(c.typ); ok {
+				bs := e.ufBytes(fmt.Sprintf("%s.%d", nm, idx), parts, (w+7)/8)
+				c.v = e.b.Extract(e.concatLE(bs), w-1, 0)
+				idx++
+			}
+		})
+		return nil, true
 	case "zzHavoc":
 		// fill every integer leaf with a fresh unconstrained value (model-level nondeterminism)
 		e.run.havocN++
@@ -714,10 +778,19 @@ func (e *Exec) intrinsic(fn *ssa.Function, args []Value) (Value, bool) {
 		return TupleV{e.b.ConstU(64, 0), &IfaceV{}}, true
 	case "errors.Is":
 		return e.valueEq(args[0], args[1]), true
-	case "(*sync.Mutex).Lock", "(*sync.Mutex).Unlock", "(*sync.RWMutex).Lock", "(*sync.RWMutex).Unlock", "(*sync.RWMutex).RLock", "(*sync.RWMutex).RUnlock":
+	case "(*sync.Mutex).Lock", "(*sync.RWMutex).Lock", "(*sync.RWMutex).RLock":
+		if e.il != nil {
+			e.ilLock(e.nonNil(args[0]).alts[0].cell)
+		}
+		return nil, true
+	case "(*sync.Mutex).Unlock", "(*sync.RWMutex).Unlock", "(*sync.RWMutex).RUnlock":
+		if e.il != nil {
+			e.ilUnlock(e.nonNil(args[0]).alts[0].cell)
+		}
 		return nil, true
 	case "(*sync.Once).Do":
-		// sequential model: run f if the once's done flag is unset
+		// run f if the once's done flag is unset; under zzInterleave the once is a lock while f runs
+		// and observing "done" is an acquire
 		p := e.nonNil(args[0])
 		c := p.alts[0].cell
 		done := c.elems[0] // done atomic.Uint32 / uint32 depending on version
@@ -726,8 +799,12 @@ func (e *Exec) intrinsic(fn *ssa.Function, args []Value) (Value, bool) {
 			leaf = leaf.elems[len(leaf.elems)-1]
 		}
 		if t, ok := leaf.v.(*Term); ok && t.isZero() {
-			leaf.v = e.b.ConstU(int(t.S), 1)
+			e.ilLock(c)
 			e.callValue(args[1], nil, nil)
+			leaf.v = e.b.ConstU(int(t.S), 1)
+			e.ilUnlock(c)
+		} else {
+			e.ilAcquire(c)
 		}
 		return nil, true
 	}
